@@ -42,6 +42,8 @@ func Match(query CompFilter, co *CalendarObject) (matched bool, err error) {
 func match(filter CompFilter, comp *ical.Component) (bool, error) {
 	if comp.Name != filter.Name {
 		return filter.IsNotDefined, nil
+	} else if filter.IsNotDefined {
+		return false, nil
 	}
 
 	var zeroDate time.Time
@@ -76,20 +78,25 @@ func match(filter CompFilter, comp *ical.Component) (bool, error) {
 }
 
 func matchCompFilter(filter CompFilter, comp *ical.Component) (bool, error) {
-	var matches []*ical.Component
+	if filter.IsNotDefined {
+		// Matches iff no component of that name exists
+		for _, child := range comp.Children {
+			if child.Name == filter.Name {
+				return false, nil
+			}
+		}
+		return true, nil
+	}
 
 	for _, child := range comp.Children {
 		match, err := match(filter, child)
 		if err != nil {
 			return false, err
 		} else if match {
-			matches = append(matches, child)
+			return true, nil
 		}
 	}
-	if len(matches) == 0 {
-		return filter.IsNotDefined, nil
-	}
-	return true, nil
+	return false, nil
 }
 
 func matchPropFilter(filter PropFilter, comp *ical.Component) (bool, error) {
@@ -97,6 +104,8 @@ func matchPropFilter(filter PropFilter, comp *ical.Component) (bool, error) {
 	field := comp.Props.Get(filter.Name)
 	if field == nil {
 		return filter.IsNotDefined, nil
+	} else if filter.IsNotDefined {
+		return false, nil
 	}
 
 	for _, paramFilter := range filter.ParamFilter {
